@@ -66,6 +66,30 @@ impl State {
             (Self::WriteClosed, Flag::Fin) => {
                 *self = Self::BothClosed { reset: false };
             }
+            (
+                Self::ClosingWrite {
+                    read_closed: false,
+                    inner,
+                },
+                Flag::Fin,
+            ) => {
+                *self = Self::ClosingWrite {
+                    read_closed: true,
+                    inner,
+                };
+            }
+            (
+                Self::ClosingRead {
+                    write_closed: false,
+                    inner,
+                },
+                Flag::StopSending,
+            ) => {
+                *self = Self::ClosingRead {
+                    write_closed: true,
+                    inner,
+                };
+            }
             (Self::Open, Flag::StopSending) => {
                 *self = Self::WriteClosed;
             }
